@@ -14,18 +14,18 @@ PROPS = {
     "C01": {
         "module": "Cdecao.Props.C01",
         "theorems": ["Props.C01", "Props.C01_node", "Props.C01_valid", "Props.C01_C08_cde"],
-        "streams": ["node", "node-rooms", "solve"],
+        "streams": ["node", "node-rooms", "solve", "cdedb-read", "e2e-cde", "cli-simple"],
     },
     "C02": {
         "module": "Cdecao.Props.C02",
         "theorems": ["Props.C02_node_bound", "Props.C02_node_mono", "Props.C02_cover", "Props.C02_node_none", "Props.C02_feas_in_sol",
                      "Props.C02_feas_optimal", "Props.C02_wrong_empty", "Props.C02_compose", "Props.C02_partial", "Props.noFreeableb_sound", "Props.C02_full_counterexample", "Props.F1_root", "Props.F1_enforce", "Props.F1_cancel"],
-        "streams": ["solve-norooms", "node-norooms", "hungarian"],
+        "streams": ["solve-norooms", "node-norooms", "hungarian", "engine", "cli-simple"],
     },
     "C03": {
         "module": "Cdecao.Props.C03",
         "theorems": ["Props.C03", "Props.C03_bounded_of_spec", "Props.C03_caobab", "Props.C03_F11_not_bounded", "Props.F11_root", "Props.F11_enforce2", "Props.F11_enforce2_cancel0"],
-        "streams": ["engine", "solve", "solve-rooms", "engine-exhaustive"],
+        "streams": ["engine", "solve", "solve-rooms", "engine-exhaustive", "cli-simple"],
     },
     "C04": {
         "module": "Cdecao.Props.C04",
@@ -34,7 +34,7 @@ PROPS = {
                      "Props.C04_caobab_wf", "Props.C04_caobab_budget", "Props.C04_caobab_run_bound", "Props.C04_caobab_gen_bound",
                      "Props.C04_terminates", "Props.C04_terminates_maximal", "Props.C04_terminates_infinite", "Props.C04_terminates_spurious",
                      "Props.C04_terminates_optimal", "Props.C04_caobab_terminates", "Props.C04_caobab_no_infinite_run"],
-        "streams": ["engine", "solve", "engine-exhaustive"],
+        "streams": ["engine", "solve", "engine-exhaustive", "node", "node-rooms"],
     },
     "C05": {
         "module": "Cdecao.Props.C05",
@@ -132,7 +132,7 @@ _ENG = "bab.rs is modelled as the transition system Eng3.step? (micro-steps of t
 _NODE = "run_bab_node / hungarian_algorithm are modelled by N2.runNodeS / H2.run; every node of the real search trees of generated instances is compared (kind, score, assignment, exact child lists, panics)."
 
 LEVELS = {
-    "C01": {"text": "Theorem Props.C01: for every well-formed instance, room list, float behaviour, thread count and schedule the incumbent of the engine model (hence the returned assignment) satisfies HardOK; no hypothesis on matching or tree. Tie to the code: node-by-node and trace-by-trace correspondence plus HardOK evaluated in Lean on every assignment the real code returns.",
+    "C01": {"text": "Theorem Props.C01: for every well-formed instance, room list, float behaviour, thread count and schedule the incumbent of the engine model (hence the returned assignment) satisfies HardOK; no hypothesis on matching or tree. Props.C01_C08_cde: the same for every problem the CdE reader model accepts (reader ∘ solver). Tie to the code: node-by-node and trace-by-trace correspondence, exact correspondence of the CdE reader (the problem the solver gets on the CdE path), plus HardOK evaluated in Lean on every assignment the real code returns — in-process, through the real binary on simple-format instances, and end to end on CdE exports (decoded from the import file, on the problem the Lean reader model builds from the same export and options).",
             "note": _NODE + " " + _ENG + " InstOK (indices in range, each participant instructs at most one course) is the validity premise."},
     "C02": {"text": "Full statement is false for the code — Props.C02_full_counterexample proves it of the model on the 2-course witness with the three node results evaluated by the kernel, and the check replays the witness on the real code on every run (known finding F1, class: a participant with own choices instructs a non-fixed course). In the complement class Props.C02_partial is proved end to end: for every valid instance (decidable validb) without room list in which no participant with own choices instructs a non-fixed course (decidable noFreeableb), every T >= 1 and schedule, the finished search reports nothing only if no assignment satisfies the hard constraints, and otherwise an assignment satisfying them whose reported score is its documented score and is maximal. Real runs without rooms are compared with an exact brute-force optimum (<= 4 courses, <= 7 participants); a miss is the known finding only if the instance is in the F1 class AND the model of the unchanged algorithm gives the same answer; anything else is a violation.",
             "note": _NODE + " " + _ENG + " Partial with respect to the full property: inside the F1 class the property is false of the code (known finding), the theorem covers the complement."},
